@@ -196,7 +196,7 @@ func genLookup(t *rapid.T) lookupCase {
 	return c
 }
 
-var chkLookup = harness.Define("coil-lookup", genLookup, runLookup)
+var chkLookup = harness.Define("coil-lookup", genLookup, runLookup).Repeated(2)
 
 // ---------------------------------------------------------------------------
 // write / read-back through a conforming device
@@ -268,7 +268,7 @@ func genReadback(t *rapid.T) rbCase {
 	return rbCase{Framing: gen.Framing(t), Start: start, N: n, Pattern: p, Seed: rapid.Uint64().Draw(t, "seed")}
 }
 
-var chkReadback = harness.Define("coil-write-readback", genReadback, runReadback)
+var chkReadback = harness.Define("coil-write-readback", genReadback, runReadback).Repeated(2)
 
 // ---------------------------------------------------------------------------
 // builder: coil fields -> requests -> device -> ExtractFields
@@ -478,7 +478,7 @@ func genBuilder(t *rapid.T) bCase {
 	return c
 }
 
-var chkBuilder = harness.Define("coil-builder-extract", genBuilder, runBuilder)
+var chkBuilder = harness.Define("coil-builder-extract", genBuilder, runBuilder).Repeated(2)
 
 // ---------------------------------------------------------------------------
 
